@@ -192,6 +192,11 @@ def run_chunk(chunk, ctx):
 
     def out(prop, fp, what, cond):
         if prop not in props:
+            if prop == "C05" and cond is True:
+                # an exception / early EOF met while checking another property: confirm natively that it is real
+                m = ex.model()
+                col.probe(fp, dict(w=SymStr(chars).concretize(m) if chars else "", line=m.eval(line0, model_completion=True).as_long(),
+                                   col=m.eval(col0, model_completion=True).as_long(), props=["C05"]))
             return
         if feasible(cond):
             m = ex.solver.model() if cond is not True else ex.model()
